@@ -105,13 +105,13 @@ def register_executor(reg):
   c.requires('running', live).requires('remembered_outcome_is_terminal', lo_inv)
   c.requires('no_phase_running', 'self.test_state.running_phase_state is None')
   c.requires('not_profiling', 'not self._run_phases_with_profiling')
-  c.requires('valid_options', '(phase.options.timeout_s is None or (phase.options.timeout_s >= 0 and phase.options.timeout_s < 2**60)) and '
-             '(phase.options.repeat_limit is None or phase.options.repeat_limit >= 0)')
   c.ensures('an_ERROR_record_makes_the_run_terminal',
             'implies(not phase.options.repeat_on_timeout and not phase.options.force_repeat and self._last_outcome is None, '
             'forall_int(lambda j: implies(old(len({r})) <= j and j < len({r}), {r}[j].outcome is not test_record.PhaseOutcome.ERROR)))'.format(r=recs))
   c.ensures('records_only_appended', 'len({r}) >= old(len({r})) and forall_int(lambda j: implies(0 <= j and j < old(len({r})), {r}[j] is old(content({r}))[j]))'.format(r=recs))
   c.ensures('phase_slot_released', 'self.test_state.running_phase_state is None')
+  for lst in ('subtests', 'branches', 'checkpoints'):
+    c.ensures('%s_untouched' % lst, 'len(self.test_state.test_record.%s) == old(len(self.test_state.test_record.%s))' % (lst, lst))
   c.ensures('remembered_outcome_is_terminal', lo_inv)
   c.ensures('first_terminal_event_decides', keeps_first)
   c.ensures('terminal_result_is_remembered', 'implies(result is %s.TERMINAL, %s)' % (ER, term))
@@ -121,7 +121,7 @@ def register_executor(reg):
             'subtest_rec.outcome is test_record.SubtestOutcome.FAIL)')
   c.modifies('self._last_outcome', 'self._last_execution_unit', 'subtest_rec.outcome', 'list(self._phase_profile_stats)',
              'list(self.test_state.test_record.phases)', 'self.test_state.running_phase_state', 'self.test_state._running_test_api',
-             'self._phase_exec._current_phase_thread', '*user', 'event.flag', 'threading.Thread.alive',
+             'self._phase_exec._current_phase_thread', '*user', 'threading.Thread.alive',
              'DiagnosesStore._diagnoses_by_results', 'DiagnosesStore._diagnoses', 'list(self.test_state.test_record._cached_phases)',
              'Measurement.outcome', 'Measurement.marginal', 'Measurement._notification_cb')
 
@@ -133,6 +133,10 @@ def register_executor(reg):
   c.ensures('first_terminal_event_decides', keeps_first)
   c.ensures('terminal_result_is_remembered', 'implies(result is %s.TERMINAL, %s)' % (ER, term))
   c.ensures('continue_sets_no_outcome', 'implies(result is %s.CONTINUE and old(self._last_outcome) is None, self._last_outcome is None)' % ER)
+  c.ensures('fail_subtest_marks_the_subtest_only',
+            'implies(subtest_rec is not None and old(subtest_rec.outcome) is not subtest_rec.outcome, '
+            'subtest_rec.outcome is test_record.SubtestOutcome.FAIL)')
+  c.ensures('checkpoints_only_appended', 'len(self.test_state.test_record.checkpoints) >= old(len(self.test_state.test_record.checkpoints))')
   c.modifies('self._last_outcome', 'self._last_execution_unit', 'subtest_rec.outcome', 'list(self.test_state.test_record.checkpoints)')
 
   # ---------------------------------------------------------------- the ladder: abort > terminal outcome > aggregation
